@@ -1,6 +1,7 @@
 package main
 
 import (
+	"syscall"
 	"bufio"
 	"fmt"
 	"io"
@@ -263,6 +264,8 @@ func NewSolver(bin string, timeoutMs int) *Solver {
 	default:
 		cmd = exec.Command(bin, "-in", "-smt2")
 	}
+	// the solver must not outlive the engine (e.g. when the check is killed by `timeout`)
+	cmd.SysProcAttr = &syscall.SysProcAttr{Pdeathsig: syscall.SIGKILL}
 	in, _ := cmd.StdinPipe()
 	outp, _ := cmd.StdoutPipe()
 	cmd.Stderr = cmd.Stdout
